@@ -12,8 +12,8 @@ Keys carry no configuration tag: the same function in K1 and K2 is the same inst
   BOOL       deserialize_bool decided by evaluation: with the decoded u32 fixed to 0 / 1 every path calls
              visit_bool(false) / visit_bool(true); fixed to 2, 3, 255, 256, 257, 2^31, 2^32-1 no path
              calls any Visitor method and the function returns an Err
-  STR-NUL    deserialize_str: the payload slice is tested with `contains` (needle type u8) before the
-             visitor is called; the `found` edge returns Err without calling the visitor
+  STR-NUL    deserialize_str: the payload slice is tested with `contains(&0)` before the visitor is
+             called; the `found` edge returns Err without calling the visitor
   STR-UTF8   the &str handed to the visitor comes from checked `core::str::from_utf8` of the payload slice
              through `?`/map_err only; no `from_utf8_unchecked` in the D-Bus deserializer
   STR-TERM   the terminator byte is loaded and compared with 0 before the visitor is called, non-zero
@@ -21,6 +21,9 @@ Keys carry no configuration tag: the same function in K1 and K2 is the same inst
   ARR-BOUND  ArrayDeserializer::next: after the element is deserialized `pos` is compared strictly with
              `start + len` on every path to a return, the overrun edge returns Err only
   ARR-WHO    the array/dict access types deserialize an element only through ArrayDeserializer::next
+  ARR-USE    any other function of the D-Bus deserializer that obtains an ArrayDeserializer and then lets a
+             visitor/seed decode from the same deserializer compares the position with start+len afterwards
+             (violated in K2 by deserialize_option under `option-as-array`: new finding)
   ARR-END    done() compares `pos` with `start + len`; next_element consults done() before reading and
              reads nothing on the done edge
   FD         get_fd looks the index up with checked `get` (no indexing, no unwrap) and maps a miss to
@@ -34,8 +37,6 @@ Keys carry no configuration tag: the same function in K1 and K2 is the same inst
 
 Dropped clauses: "termination test is equality, not >=" for done() — with ARR-BOUND in place `>=` is
 behaviour-equivalent, so demanding `==` would be a false alarm; depth limits are C07's rules.
-Not visible in the facts: the needle *value* of `slice.contains(&0)` (a promoted constant whose body the
-extractor does not dump) — STR-NUL decides the test's presence, operand and effect, not the needle.
 """
 from .. import mir
 from .. import lib_pathsim as ps
@@ -354,7 +355,7 @@ def check_str(ctx, f, cfg):
                 ok = mir.block_dominates(fn, p[1].b, v.b)
         ctx.ob("STR-UTF8", key + "checked-utf8", ok, "[%s] %s" % (cfg, detail), v.where)
     for b in f.all_bodies("zvariant"):
-        if b.file.endswith("zvariant/src/dbus/de.rs") or b.root == fn.id:
+        if "zvariant::dbus::de::" in b.root or b.root == fn.id:
             for c in mir.calls(b):
                 if c.is_("from_utf8_unchecked", "from_utf8_lossy", "from_boxed_utf8_unchecked"):
                     ctx.ob("STR-UTF8", "no-unchecked-utf8:" + b.root, False,
@@ -370,12 +371,13 @@ def check_str(ctx, f, cfg):
         src = through_try(fn, c.args[0])
         if not (src[0] == "call" and src[1].b in payloads):
             continue
-        needle_ty = c.c.get("argtys", [None, None])[1] if c.c.get("argtys") else None
+        no = mir.origin(fn, c.args[1]) if len(c.args) > 1 else ("none",)
+        needle = no[1].get("pv", no[1].get("v")) if no[0] == "const" else None
         n += 1
         ok, why = rejects(fn, tt, forbidden=visit_blocks)
         dom = all(mir.block_dominates(fn, sb, vb) for vb in visit_blocks)
-        ctx.ob("STR-NUL", key + "interior-nul-rejected", ok and dom,
-               "[%s] `contains` on the payload: found-edge %s; test dominates the visitor call: %s" % (cfg, why, dom), c.where)
+        ctx.ob("STR-NUL", key + "interior-nul-rejected", ok and dom and needle == 0,
+               "[%s] `contains(&%s)` on the payload: found-edge %s; test dominates the visitor call: %s" % (cfg, needle, why, dom), c.where)
     ctx.floor("STR-NUL", "interior-nul tests on the payload in deserialize_str", n, 1)
 
     # STR-TERM
@@ -468,6 +470,42 @@ def check_array(ctx, f, cfg):
                        "[%s] %s" % (cfg, "the bounds-checked step" if b.root == nxt.id else
                                     "element deserialized outside ArrayDeserializer::next (no overrun test)"), c.where)
     ctx.floor("ARR-WHO", "element deserializations in the array access types", n, 1)
+
+    # ARR-USE: whoever else obtains an ArrayDeserializer must not let an element be decoded unbounded
+    n_users = 0
+    for b in f.all_bodies("zvariant"):
+        if "zvariant::dbus::de::" not in b.root or b.d.get("impl_adt") in fam:
+            continue
+        news = [c for c in mir.calls(b) if c.callee.startswith(ARR) and c.is_("new")]
+        if not news:
+            continue
+        n_users += 1
+        reentries = []
+        for c in mir.calls(b):
+            if c.declared == "serde_core::de::DeserializeSeed::deserialize":
+                reentries.append(c)
+            elif is_visit(c):
+                for a in c.args[1:]:
+                    l = mir.op_local(a)
+                    ty = b.locals[l][0] if l is not None else ""
+                    if ty.startswith("&mut ") and "dbus::de::Deserializer<" in ty:
+                        reentries.append(c)
+        for c in reentries:
+            after = mir.reachable(b, [c.b])
+            bounded = False
+            for sb, op, l, r, tt, ft, ln in mir.cmp_switches(b):
+                if sb in after and pos_vs_end(b, l, r) is not None:
+                    bounded = True
+            for c2 in mir.calls(b):
+                if c2.b in after and c2.b != c.b and c2.callee.startswith(ARR) and c2.is_("done", "next", "next_element"):
+                    bounded = True
+            ctx.ob("ARR-USE", "%s:element-bounded" % b.name, bounded,
+                   "[%s] %s reads the array length with ArrayDeserializer::new and then lets %s decode an element from the same "
+                   "deserializer; %s" % (cfg, b.name, c.callee.rsplit("::", 1)[-1],
+                                         "the position is compared with start+len afterwards" if bounded else
+                                         "the position is never compared with start+len: any non-zero length is accepted, "
+                                         "whatever the element consumes"), c.where)
+    ctx.floor("ARR-USE", "users of ArrayDeserializer::new outside the array access types", n_users, 2)
 
     # ARR-END
     done = ctx.one(f.find(name="done", adt=ARR, trait=""), "dbus ArrayDeserializer::done")
@@ -676,8 +714,7 @@ def run(ctx):
         "lookup mapped to UnknownFd; the variant's child signature comes from the validating parser on wire bytes; ObjectPath "
         "and Signature values built from decoded strings go through validating constructors only.")
     ctx.not_decided = ("that nothing else is accepted wrongly (variant signature with several complete types, DESIGN §7 O3); the "
-                       "object-path and signature grammars (C10/C06); nesting limits (C07); the needle value of the interior-nul "
-                       "test (promoted constant, not in the facts); GVariant decoding.")
+                       "object-path and signature grammars (C10/C06); nesting limits (C07); GVariant decoding.")
     ctx.assumptions.append("serde Visitor implementations are only reached through the deserializer methods analysed here")
     for cfg in ("K1", "K2"):
         check_config(ctx, ctx.facts(cfg), cfg)
